@@ -121,8 +121,17 @@ func (st *c07State) c07Query(idx int, q string, desc string) {
 	inq := fmt.Sprintf("%q", q)
 	r := NewRng(w.Seed, uint64(idx), 71)
 
-	// --- the embedding contexts
+	// --- the embedding contexts.  A query that itself starts with `(` is not put into them: `ctx( (A) UNION B )` is
+	// read by the parser as `ctx((A)) UNION B` in several contexts (the closing parenthesis of the first operand ends
+	// the subquery), so "passing" there would be an accident; such queries are tested at statement level only.
+	startsParen := strings.HasPrefix(strings.TrimLeft(q, " \t\r\n"), "(")
+	if startsParen {
+		w.Count("contexts-skipped:query-starts-with-paren")
+	}
 	for _, c := range embedContexts {
+		if startsParen {
+			break
+		}
 		text := c.Pre + q + c.Post
 		sc, why := parseOne(text)
 		if sc == nil {
@@ -153,8 +162,14 @@ func (st *c07State) c07Query(idx int, q string, desc string) {
 	} else if Ep, ok := st.explainQuiet(sp); ok {
 		w.Count("embeddings")
 		if Ep != E {
-			w.Count("bad:embed@paren-toplevel")
-			w.Report(Finding{Kind: "embed", Key: "embed@paren-toplevel", Input: inq, InputHex: hexs(in),
+			key := "embed@paren-toplevel"
+			if startsParen && (nestedUnionFirst(s0, E) || nestedUnionFirst(nil, Ep)) {
+				// known shape: a parenthesised union as FIRST operand of an outer union is regrouped differently
+				// (nested in one rendering, flattened in the other) when the whole query is parenthesised again
+				key = "embed@nested-union-first-operand"
+			}
+			w.Count("bad:" + key)
+			w.Report(Finding{Kind: "embed", Key: key, Input: inq, InputHex: hexs(in),
 				Detail: fmt.Sprintf("--- alone:\n%s--- parenthesised:\n%s", trunc(E, 1200), trunc(Ep, 1200))})
 		}
 	}
@@ -190,6 +205,19 @@ func (st *c07State) c07Query(idx int, q string, desc string) {
 	if w.stats.Counters["queries"]%3000 == 1 {
 		w.Sample(q)
 	}
+}
+
+// nestedUnionFirst: the top-level parse is a SelectWithUnionQuery whose first select is itself a
+// SelectWithUnionQuery with more than one select, or the rendering of the query alone shows a nested
+// SelectWithUnionQuery as the first child of the outer list.
+func nestedUnionFirst(s ast.Statement, alone string) bool {
+	if swu, ok := s.(*ast.SelectWithUnionQuery); ok && swu != nil && len(swu.Selects) > 1 {
+		if in, ok := swu.Selects[0].(*ast.SelectWithUnionQuery); ok && in != nil && len(in.Selects) > 1 {
+			return true
+		}
+	}
+	lines := strings.SplitN(alone, "\n", 4)
+	return len(lines) >= 3 && strings.HasPrefix(lines[0], "SelectWithUnionQuery") && strings.HasPrefix(lines[2], "  SelectWithUnionQuery")
 }
 
 func runC07(w *W) {
